@@ -46,8 +46,9 @@ func runC16(c *eng.Ctx) {
 		// the compared offset is the one being assigned (baseOffset + i)
 		okCmp := false
 		eng.Instrs(fn, func(in ssa.Instruction) {
-			if bo, ok := in.(*ssa.BinOp); ok && (bo.Op == token.NEQ || bo.Op == token.EQL) && eng.LoadNamed("Offset", nil)(bo.Y) {
-				if eng.BinComm(token.ADD, eng.Param("baseOffset"), func(v ssa.Value) bool { return isRangeIndex(v) })(bo.X) {
+			if bo, ok := in.(*ssa.BinOp); ok && (bo.Op == token.NEQ || bo.Op == token.EQL) {
+				assigned := eng.BinComm(token.ADD, eng.Param("baseOffset"), func(v ssa.Value) bool { return isRangeIndex(v) })
+				if (eng.LoadNamed("Offset", nil)(bo.Y) && assigned(bo.X)) || (eng.LoadNamed("Offset", nil)(bo.X) && assigned(bo.Y)) {
 					okCmp = true
 				}
 			}
